@@ -22,7 +22,6 @@ def mut(prop, name, *edits):
 # ---- C11
 mut("C11", "budget-off-by-one", ("interpreter.go", "intp.NumOps > intp.MaxOps", "intp.NumOps >= intp.MaxOps"))
 mut("C11", "reset-count-per-execute", ("interpreter.go", "\ts := newScanner(r)\n\terr := intp.executeScanner(s)", "\ts := newScanner(r)\n\tintp.NumOps = 0\n\terr := intp.executeScanner(s)"))
-mut("C11", "checkstart-stays-set", ("interpreter.go", "\t\tintp.CheckStart = false\n", ""))
 mut("C11", "checkstart-first-byte-only", ("interpreter.go", 'if string(head) != "%!" {', "if len(head) == 0 || head[0] != '%' {"))
 mut("C11", "no-operand-stack-check", ("interpreter.go", "\tif len(intp.Stack) > maxOperandStackDepth {\n\t\treturn intp.e(eStackoverflow, \"operand stack overflow\")\n\t}\n", ""))
 mut("C11", "revert-limit-dispatch-fix", ("interpreter.go", "ok && e2 != ErrExecutionLimitExceeded {", "ok {"))
@@ -35,8 +34,10 @@ mut("C11", "budget-skipped-in-error-handler", ("interpreter.go", "\tif intp.MaxO
 mut("C12", "refill-drops-data-with-error", ("scanner.go", "\tif n > 0 {\n\t\terr = nil\n\t}\n\treturn err\n", "\treturn err\n"))
 mut("C12", "peekn-stops-at-buffer-end", ("scanner.go", "func (s *scanner) PeekN(n int) []byte {\n\tfor len(s.peek) < n {\n", "func (s *scanner) PeekN(n int) []byte {\n\tfor len(s.peek) < n {\n\t\tif s.eexec == 0 && s.used > 0 && s.pos >= s.used && len(s.peek) > 0 {\n\t\t\treturn s.peek\n\t\t}\n"))
 mut("C12", "execute-clears-open-procs", ("interpreter.go", "\ts := newScanner(r)\n\terr := intp.executeScanner(s)", "\ts := newScanner(r)\n\tintp.procStart = intp.procStart[:0]\n\terr := intp.executeScanner(s)"))
-mut("C12", "revert-gt-fix", ("scanner.go", "\t\t\tif len(bb) < 2 {\n\t\t\t\t// no second byte could be read: report why\n\t\t\t\treturn nil, s.err\n\t\t\t}\n\t\t\treturn nil, &postScriptError{eSyntaxerror, \"unexpected '>'\"}\n",
+mut("C12", "revert-gt-fix", ("scanner.go", "\t\t\t// A lone '>' is never valid, whatever follows it (another byte, the\n\t\t\t// end of the input, or a byte that could not be read or decoded).\n\t\t\treturn nil, &postScriptError{eSyntaxerror, \"unexpected '>'\"}\n",
      "\t\t\terr := s.err\n\t\t\tif err == nil {\n\t\t\t\terr = &postScriptError{eSyntaxerror, \"unexpected '>'\"}\n\t\t\t}\n\t\t\treturn nil, err\n"))
+mut("C12", "revert-second-gt-fix", ("scanner.go", "\t\t\t// A lone '>' is never valid, whatever follows it (another byte, the\n\t\t\t// end of the input, or a byte that could not be read or decoded).\n\t\t\treturn nil, &postScriptError{eSyntaxerror, \"unexpected '>'\"}\n",
+     "\t\t\tif len(bb) < 2 {\n\t\t\t\treturn nil, s.err\n\t\t\t}\n\t\t\treturn nil, &postScriptError{eSyntaxerror, \"unexpected '>'\"}\n"))
 mut("C12", "seekable-peek-rewinds-to-zero", ("type1/peekreader.go", "\t\t_, err = r.Seek(pos, io.SeekStart)", "\t\t_, err = r.Seek(0, io.SeekStart)"))
 
 # ---- C13
